@@ -2,25 +2,29 @@
 C08, part `aff`: optimality of the affine aligners (property theorems only).
 
 The property: "the total score of the alignment returned by the Needleman-Wunsch aligners
-equals the maximum over all global alignments … under the … affine gap model".
+equals the maximum over all global alignments … under the … affine gap model; … the
+Smith-Waterman aligners … maximum over all local alignments (zero if none is positive); the
+fitted aligners return an alignment that consumes the whole query and is optimal among all such
+alignments that end at the same reference position".
 
-Full statement for `NWAffine` (sequences non-empty, gap scores and gap-open ≤ 0):
+Since the repairs of K1 (the three-layer recurrences had no transition between the two gap
+layers) and K3 (FittedAffine took its end from the match layer only) the full statements hold
+of the model of the code: `nwAffine_opt`, `swAffine_opt`, `fittedAffine_opt`.
 
-    ∃ ps, nwAlign S open r q = .ok ps ∧
-      (∀ a, IsGlobal a r q → scoreAff S open a ≤ total ps) ∧
-      (∃ a, IsGlobal a r q ∧ scoreAff S open a = total ps)
-
-It is false of the code (`nwAffine_not_opt`, finding K1): the three-layer recurrence has no
-transition between the two gap layers.  What holds is the same statement over the alignments
-with no gap directly next to a gap in the other sequence (`nwAffine_opt_partial`), which is the
-full statement whenever a letter pair never scores less than its two letters against gaps
-(`noAdj_suffices`, `nwAffine_opt_of_side_condition`).
+The theorems about the aligners *before* the repairs are kept, restated about the legacy
+variants of the model (`nwAlignNoCross`, `swAlignNoCross`, `fitAlignLegacy`, `fitTable false`):
+what held (`…_opt_partial`, `fittedAffine_opt_restricted`, `…_of_side_condition`), the
+refutations of the full statements (`nwAffine_not_opt`, `fittedAffine_not_opt`) and the
+yardstick of the K3 recogniser (`fittedRestricted_yardstick`), so that the recognisers of the
+driver keep their meaning and a regression is reported by name.
 -/
 import Biogo.Proofs.NWAffine
 import Biogo.Proofs.SWAffine
 import Biogo.Proofs.FittedAffine
+import Biogo.Proofs.FittedFull
 import Biogo.Proofs.NoAdjSuffices
 import Biogo.Proofs.FittedClass
+import Biogo.Proofs.TraceWF
 
 namespace Biogo.Properties.C08_aff
 open Biogo.Spec.Alignment Biogo.AlignAff Biogo.Spec.AffineOpt
@@ -59,15 +63,149 @@ theorem fittedOpt_optimal (cross : Bool) (S : Matrix) (gapOpen : Int) (r q : Lis
   have h := fittedOpt_isOpt cross S gapOpen r q e he
   exact ⟨fun a hg hc => h.1 a ⟨hg, hc⟩, fun x hx => let ⟨a, ha, e⟩ := h.2 x hx; ⟨a, ha.1, ha.2, e⟩⟩
 
-/-- **C08, NWAffine, the part that holds** (`_partial`: the maximum is over the global
-    alignments without adjacent opposite gaps, not over all of them — finding K1).
-    For all matrices, gap-open values and non-empty sequences the model of `NWAffine` returns
-    pairs whose total is an upper bound for every such alignment and is attained by one. -/
-theorem nwAffine_opt_partial (S : Matrix) (gapOpen : Int) (r q : List Nat) (hr : r ≠ []) (hq : q ≠ []) :
+/-! ### the property, at full strength, of the code after the repairs of K1 and K3 -/
+
+/-- **C08, NWAffine**: "the total score of the alignment returned by the Needleman-Wunsch
+    aligners equals the maximum over all global alignments … under the … affine gap model".
+    For all matrices, gap-open values and non-empty sequences the model of `NWAffine` (the
+    fill with all nine transitions between the three layers, layer-aware traceback) returns
+    pairs whose total is an upper bound for the affine score of *every* global alignment and is
+    attained by one. -/
+theorem nwAffine_opt (S : Matrix) (gapOpen : Int) (r q : List Nat) (hr : r ≠ []) (hq : q ≠ []) :
     ∃ ps, nwAlign S gapOpen r q = .ok ps ∧
+      (∀ a, IsGlobal a r q → scoreAff S gapOpen a ≤ total ps) ∧
+      (∃ a, IsGlobal a r q ∧ scoreAff S gapOpen a = total ps) := by
+  obtain ⟨ps, x, hps, hx, htot⟩ := nwAlign_total S gapOpen r q hr hq
+  have h := globalOpt_isOpt true S gapOpen r q
+  refine ⟨ps, hps, ?_, ?_⟩
+  · intro a hg
+    obtain ⟨y, hy, hle⟩ := h.1 a ⟨hg, Or.inl rfl⟩
+    rw [hx] at hy
+    cases hy
+    omega
+  · obtain ⟨a, ⟨hg, _⟩, e⟩ := h.2 x hx
+    exact ⟨a, hg, by omega⟩
+
+/-- non-vacuity: the K1 witness (`S[a][c] = −10`, gap scores −2/0, gap-open −2, `a` vs `c`),
+    on which the aligner returned −10 before the repair, now gives `-a` / `c-` with total −6 -/
+example : nwAlign (sc [[0, 0, 0], [-2, 1, -10], [-2, -10, 1]]) (-2) [1] [2] =
+    .ok [⟨0, 0, 0, 1, -2⟩, ⟨0, 1, 1, 1, -4⟩] := by
+  decide +kernel
+
+/-- **C08, SWAffine**: "… the Smith-Waterman aligners equals the maximum over all local
+    alignments (zero if none is positive)".  For all matrices with non-positive gap scores,
+    every gap-open ≤ 0 and all sequences the model of `SWAffine` returns pairs whose total
+    bounds the affine score of *every* local alignment and is attained by one (the empty
+    alignment scores 0). -/
+theorem swAffine_opt (S : Matrix) (gapOpen : Int) (ho : gapOpen ≤ 0)
+    (hg : ∀ x, S x 0 ≤ 0 ∧ S 0 x ≤ 0) (r q : List Nat) :
+    ∃ ps, swAlign S gapOpen r q = .ok ps ∧
+      (∀ a, IsLocal a r q → scoreAff S gapOpen a ≤ total ps) ∧
+      (∃ a, IsLocal a r q ∧ scoreAff S gapOpen a = total ps) :=
+  Biogo.Proofs.SWAffine.swAlign_total S gapOpen ho hg r q
+
+/-- non-vacuity: the F11 witness (`aa` / `aca`, match 7, gap-vs-c 0, gap-open −2) gives 12;
+    and a local alignment through two adjacent opposite gaps (mismatch −10, gaps 0, open −1,
+    `aca` / `aga`: `ac-a` / `a-ga` scores 5 + (−1) + (−1) + 5 = 8 > 5) -/
+example : swAlign (sc [[0, -1, 0], [-1, 7, -3], [-1, -3, 7]]) (-2) [1, 1] [1, 2, 1] =
+    .ok [⟨0, 1, 0, 1, 7⟩, ⟨1, 1, 1, 2, -2⟩, ⟨1, 2, 2, 3, 7⟩] := by
+  decide +kernel
+example : swAlign (sc [[0, 0, 0, 0], [0, 5, -10, -10], [0, -10, 5, -10], [0, -10, -10, 5]]) (-1)
+    [1, 2, 1] [1, 3, 1] = .ok [⟨0, 1, 0, 1, 5⟩, ⟨1, 1, 1, 2, -1⟩, ⟨1, 2, 2, 2, -1⟩, ⟨2, 3, 2, 3, 5⟩] := by
+  decide +kernel
+
+/-- **C08, FittedAffine**: "the fitted aligners return an alignment that consumes the whole
+    query and is optimal among all such alignments that end at the same reference position".
+    For all matrices in which a reference letter against a gap never scores more than 0, every
+    gap-open ≤ 0 and all non-empty sequences the model of `FittedAffine` returns pairs that
+    start at query position 0, end at `|q|` and at a reference position `1 ≤ e ≤ |r|`, and
+    whose total bounds the affine score of *every* alignment of the whole query with a
+    reference segment ending at `e` and is attained by one.
+    (The sign hypothesis is where the free reference prefix of column 0 is used: skipping
+    reference letters is never worse than aligning them with gaps.) -/
+theorem fittedAffine_opt (S : Matrix) (gapOpen : Int) (ho : gapOpen ≤ 0) (hg : ∀ x, S x 0 ≤ 0)
+    (r q : List Nat) (hr : r ≠ []) (hq : q ≠ []) :
+    ∃ ps, fitAlign S gapOpen r q = .ok ps ∧
+      (Biogo.Spec.AffPairs.firstStart ps).2 = 0 ∧ (Biogo.Spec.AffPairs.lastEnd ps).2 = q.length ∧
+      1 ≤ (Biogo.Spec.AffPairs.lastEnd ps).1 ∧ (Biogo.Spec.AffPairs.lastEnd ps).1 ≤ r.length ∧
+      (∀ a, IsFitted a r q (Biogo.Spec.AffPairs.lastEnd ps).1 → scoreAff S gapOpen a ≤ total ps) ∧
+      (∃ a, IsFitted a r q (Biogo.Spec.AffPairs.lastEnd ps).1 ∧ scoreAff S gapOpen a = total ps) := by
+  obtain ⟨ps, hps, he1, heR, hopt⟩ := Biogo.Proofs.FittedFull.fitAlign_total S gapOpen ho hg r q hr hq
+  obtain ⟨_, _, h0, hC⟩ := Biogo.Proofs.TraceWF.fitAlign_wf S gapOpen r q ps hps
+  have h := fittedOpt_isOpt true S gapOpen r q _ heR
+  refine ⟨ps, hps, h0, hC, he1, heR, ?_, ?_⟩
+  · intro a ha
+    obtain ⟨y, hy, hle⟩ := h.1 a ⟨ha, Or.inl rfl⟩
+    rw [hopt] at hy
+    cases hy
+    exact hle
+  · obtain ⟨a, ⟨ha, _⟩, e⟩ := h.2 _ hopt
+    exact ⟨a, ha, e⟩
+
+/-- non-vacuity: the two K3 witnesses.  Unit costs, gap-open 0, `a` / `aac`: −3 before the
+    repairs, now `a--` / `aac` with −1 (the alignment ends with a gap in the reference);
+    gap-open −3, `aa` / `cca`: −6 before, now `--a` / `cca` with −4 (a query gap opened after
+    the skipped reference prefix) -/
+example : fitAlign (sc [[0, -1, -1], [-1, 1, -1], [-1, -1, 1]]) 0 [1] [1, 1, 2] =
+    .ok [⟨0, 1, 0, 1, 1⟩, ⟨1, 1, 1, 3, -2⟩] := by
+  decide +kernel
+example : fitAlign (sc [[0, -1, -1], [-1, 1, -1], [-1, -1, 1]]) (-3) [1, 1] [2, 2, 1] =
+    .ok [⟨1, 1, 0, 2, -5⟩, ⟨1, 2, 2, 3, 1⟩] := by
+  decide +kernel
+
+/-- **The repair of K1 is conservative for the totals** (NWAffine): the repaired aligner never
+    reports less than the aligner before the repair did, and reports the same total whenever
+    the optimum can be reached without a gap directly next to a gap in the other sequence
+    (`globalOpt false = globalOpt true`). -/
+theorem k1_repair_conservative_nw (S : Matrix) (gapOpen : Int) (r q : List Nat) (hr : r ≠ []) (hq : q ≠ []) :
+    ∃ ps ps', nwAlignNoCross S gapOpen r q = .ok ps ∧ nwAlign S gapOpen r q = .ok ps' ∧
+      total ps ≤ total ps' ∧
+      (globalOpt false S gapOpen r q = globalOpt true S gapOpen r q → total ps = total ps') := by
+  obtain ⟨ps, x, hps, hx, htot⟩ := nwAlignNoCross_total S gapOpen r q hr hq
+  obtain ⟨ps', x', hps', hx', htot'⟩ := nwAlign_total S gapOpen r q hr hq
+  refine ⟨ps, ps', hps, hps', ?_, ?_⟩
+  · obtain ⟨a, ⟨hg, _⟩, e⟩ := (globalOpt_isOpt false S gapOpen r q).2 x hx
+    obtain ⟨y, hy, hle⟩ := (globalOpt_isOpt true S gapOpen r q).1 a ⟨hg, Or.inl rfl⟩
+    rw [hx'] at hy
+    cases hy
+    omega
+  · intro heq
+    rw [heq, hx'] at hx
+    cases hx
+    omega
+
+/-- the same for `SWAffine` (gap scores and gap-open ≤ 0) -/
+theorem k1_repair_conservative_sw (S : Matrix) (gapOpen : Int) (ho : gapOpen ≤ 0)
+    (hg : ∀ x, S x 0 ≤ 0 ∧ S 0 x ≤ 0) (r q : List Nat) :
+    ∃ ps ps', swAlignNoCross S gapOpen r q = .ok ps ∧ swAlign S gapOpen r q = .ok ps' ∧
+      total ps ≤ total ps' ∧
+      (localOpt false S gapOpen r q = localOpt true S gapOpen r q → total ps = total ps') := by
+  obtain ⟨ps, hps, hub, a, hl, hn, he⟩ := Biogo.Proofs.SWAffine.swAlignNoCross_total S gapOpen ho hg r q
+  obtain ⟨ps', hps', hub', a', hl', he'⟩ := Biogo.Proofs.SWAffine.swAlign_total S gapOpen ho hg r q
+  refine ⟨ps, ps', hps, hps', by have := hub' a hl; omega, ?_⟩
+  intro heq
+  have h1 : IsOpt (fun a => IsLocal a r q ∧ ((false : Bool) = true ∨ NoAdj a)) (scoreAff S gapOpen) (some (total ps)) :=
+    ⟨fun b hb => ⟨_, rfl, hub b hb.1 (hb.2.resolve_left (by simp))⟩,
+     fun x hx => by cases hx; exact ⟨a, ⟨hl, Or.inr hn⟩, he⟩⟩
+  have h2 : IsOpt (fun a => IsLocal a r q ∧ ((true : Bool) = true ∨ NoAdj a)) (scoreAff S gapOpen) (some (total ps')) :=
+    ⟨fun b hb => ⟨_, rfl, hub' b hb.1⟩, fun x hx => by cases hx; exact ⟨a', ⟨hl', Or.inl rfl⟩, he'⟩⟩
+  have e1 := isOpt_unique h1 (localOpt_isOpt false S gapOpen r q)
+  have e2 := isOpt_unique h2 (localOpt_isOpt true S gapOpen r q)
+  rw [← e1, ← e2] at heq
+  exact Option.some.inj heq
+
+/-! ### the aligners before the repairs: what held, what did not -/
+
+/-- **C08, NWAffine before the repair of K1, the part that held** (`_partial`: the maximum is
+    over the global alignments without adjacent opposite gaps, not over all of them — finding
+    K1).  For all matrices, gap-open values and non-empty sequences the model of `NWAffine`
+    without the `up ↔ left` transitions (`nwAlignNoCross`) returns pairs whose total is an upper
+    bound for every such alignment and is attained by one. -/
+theorem nwAffine_opt_partial (S : Matrix) (gapOpen : Int) (r q : List Nat) (hr : r ≠ []) (hq : q ≠ []) :
+    ∃ ps, nwAlignNoCross S gapOpen r q = .ok ps ∧
       (∀ a, IsGlobal a r q → NoAdj a → scoreAff S gapOpen a ≤ total ps) ∧
       (∃ a, IsGlobal a r q ∧ NoAdj a ∧ scoreAff S gapOpen a = total ps) := by
-  obtain ⟨ps, x, hps, hx, htot⟩ := nwAlign_total S gapOpen r q hr hq
+  obtain ⟨ps, x, hps, hx, htot⟩ := nwAlignNoCross_total S gapOpen r q hr hq
   have h := globalOpt_isOpt false S gapOpen r q
   refine ⟨ps, hps, ?_, ?_⟩
   · intro a hg hn
@@ -80,74 +218,76 @@ theorem nwAffine_opt_partial (S : Matrix) (gapOpen : Int) (r q : List Nat) (hr :
     · cases hn
     · exact ⟨a, hg, hn, by omega⟩
 
-/-- **C08, SWAffine, the part that holds** (`_partial`: maximum over the local alignments
-    without adjacent opposite gaps — K1 — "zero if none is positive" being the empty
-    alignment).  For all matrices with non-positive gap scores, every gap-open ≤ 0 and all
-    sequences the model of `SWAffine` (after fix F11) returns pairs whose total bounds every
-    such alignment and is attained by one. -/
+/-- **C08, SWAffine before the repair of K1, the part that held** (`_partial`: maximum over the
+    local alignments without adjacent opposite gaps — K1 — "zero if none is positive" being the
+    empty alignment).  For all matrices with non-positive gap scores, every gap-open ≤ 0 and all
+    sequences the model of `SWAffine` without the `up ↔ left` transitions (`swAlignNoCross`,
+    after fix F11) returns pairs whose total bounds every such alignment and is attained by one. -/
 theorem swAffine_opt_partial (S : Matrix) (gapOpen : Int) (ho : gapOpen ≤ 0)
     (hg : ∀ x, S x 0 ≤ 0 ∧ S 0 x ≤ 0) (r q : List Nat) :
-    ∃ ps, swAlign S gapOpen r q = .ok ps ∧
+    ∃ ps, swAlignNoCross S gapOpen r q = .ok ps ∧
       (∀ a, IsLocal a r q → NoAdj a → scoreAff S gapOpen a ≤ total ps) ∧
       (∃ a, IsLocal a r q ∧ NoAdj a ∧ scoreAff S gapOpen a = total ps) :=
-  Biogo.Proofs.SWAffine.swAlign_total S gapOpen ho hg r q
+  Biogo.Proofs.SWAffine.swAlignNoCross_total S gapOpen ho hg r q
 
-/-- non-vacuity: the F11 witness (`aa` / `aca`, match 7, gap-vs-c 0, gap-open −2) now gives 12 -/
-example : swAlign (sc [[0, -1, 0], [-1, 7, -3], [-1, -3, 7]]) (-2) [1, 1] [1, 2, 1] =
+/-- non-vacuity: the F11 witness (`aa` / `aca`, match 7, gap-vs-c 0, gap-open −2) gives 12 -/
+example : swAlignNoCross (sc [[0, -1, 0], [-1, 7, -3], [-1, -3, 7]]) (-2) [1, 1] [1, 2, 1] =
     .ok [⟨0, 1, 0, 1, 7⟩, ⟨1, 1, 1, 2, -2⟩, ⟨1, 2, 2, 3, 7⟩] := by
   decide +kernel
 
-/-- **C08, FittedAffine, as far as it holds** (`_partial`).  The property: "the fitted aligners
+/-- **C08, FittedAffine before the repairs of K1 and K3, as far as it held** (`_partial`; the
+    model is `fitAlignLegacy`).  The property: "the fitted aligners
     return an alignment that consumes the whole query and is optimal among all such alignments
     that end at the same reference position".  Full statement:
 
-        ∃ ps, fitAlign S open r q = .ok ps ∧ consumes the query ∧
+        ∃ ps, fitAlignLegacy S open r q = .ok ps ∧ consumes the query ∧
           (∀ a, IsFitted a r q (lastEnd ps).1 → scoreAff S open a ≤ total ps) ∧
           (∃ a, IsFitted a r q (lastEnd ps).1 ∧ scoreAff S open a = total ps)
 
-    The upper bound is false of the code even over `NoAdj` alignments (`fittedAffine_not_opt`,
-    finding K3).  What holds for all matrices, gap-open values and non-empty sequences: the
+    The upper bound was false of that code even over `NoAdj` alignments (`fittedAffine_not_opt`,
+    finding K3).  What held for all matrices, gap-open values and non-empty sequences: the
     result consumes the whole query (after fix K2b), ends inside the reference, and its total
     is the affine score of a genuine alignment of the whole query with a reference segment
     ending at the reported end, without adjacent opposite gaps — so the total never exceeds
     the optimum for that end (`fittedOpt_optimal`). -/
 theorem fittedAffine_opt_partial (S : Matrix) (gapOpen : Int) (r q : List Nat) (hr : r ≠ []) (hq : q ≠ []) :
-    ∃ ps, fitAlign S gapOpen r q = .ok ps ∧
+    ∃ ps, fitAlignLegacy S gapOpen r q = .ok ps ∧
       (Biogo.Spec.AffPairs.firstStart ps).2 = 0 ∧ (Biogo.Spec.AffPairs.lastEnd ps).2 = q.length ∧
       (Biogo.Spec.AffPairs.lastEnd ps).1 ≤ r.length ∧
       ∃ a, IsFitted a r q (Biogo.Spec.AffPairs.lastEnd ps).1 ∧ NoAdj a ∧ scoreAff S gapOpen a = total ps := by
   obtain ⟨ps, hps, hle, a, hfit, hna, hsc⟩ := Biogo.Proofs.FittedAffine.fitAlign_sound S gapOpen r q hr hq
-  obtain ⟨_, _, h0, hC⟩ := Biogo.Proofs.TraceWF.fitAlign_wf S gapOpen r q ps hps
+  obtain ⟨t, ht⟩ := Biogo.Proofs.TraceWF.map_fst_ok hps
+  obtain ⟨_, _, h0, hC⟩ := Biogo.Proofs.TraceWF.fitAlignT_wf true false false S gapOpen r q ps t ht
   exact ⟨ps, hps, h0, hC, hle, a, hfit, hna, hsc⟩
 
-/-- Refutation of the full statement for `FittedAffine` (finding K3): unit costs, gap-open 0,
-    `r = a`, `q = aac`: the aligner reports `--a` / `aac` with total −3 for end 1, while
+/-- Refutation of the full statement for `FittedAffine` before the repairs (finding K3): unit
+    costs, gap-open 0, `r = a`, `q = aac`: the aligner reported `--a` / `aac` with total −3 for end 1, while
     `a--` / `aac` also ends at 1, consumes the query, has no adjacent opposite gaps and scores −1
-    (the query gap after the match would have to be opened from the `left` layer of column 1,
-    which the free-prefix column never feeds, and only match-layer ends are considered). -/
+    (only match-layer ends were considered).  The repaired aligner returns that alignment
+    (example after `fittedAffine_opt`). -/
 theorem fittedAffine_not_opt :
     ∃ (M : List (List Int)) (gapOpen : Int) (r q : List Nat) (ps : List Pair) (a : Aln),
       gapOpen ≤ 0 ∧ (∀ x, x < 3 → sc M x 0 ≤ 0 ∧ sc M 0 x ≤ 0) ∧
-      fitAlign (sc M) gapOpen r q = .ok ps ∧
+      fitAlignLegacy (sc M) gapOpen r q = .ok ps ∧
       IsFitted a r q (Biogo.Spec.AffPairs.lastEnd ps).1 ∧ NoAdj a ∧ total ps < scoreAff (sc M) gapOpen a :=
   ⟨[[0, -1, -1], [-1, 1, -1], [-1, -1, 1]], 0, [1], [1, 1, 2],
     [⟨0, 0, 0, 2, -2⟩, ⟨0, 1, 2, 3, -1⟩], [.m 1 1, .l 1, .l 2],
     by decide, by decide, by decide +kernel, ⟨0, by decide, by decide, by decide, by decide⟩,
     (by show noAdj _ = true; decide), by decide⟩
 
-/-- **C08, FittedAffine: optimal over the class it explores** (what remains of finding K3 is
-    exactly the difference between this class and all fitted alignments).  For all matrices,
-    gap-open values and non-empty sequences the model of `FittedAffine` returns pairs whose total
+/-- **C08, FittedAffine before the repairs: optimal over the class it explored** (finding K3
+    was exactly the difference between this class and all fitted alignments).  For all matrices,
+    gap-open values and non-empty sequences the model `fitAlignLegacy` returns pairs whose total
     is the maximum of the affine score over the alignments of the whole query with a reference
     segment ending at the reported end that
       * have no gap directly next to a gap in the other sequence (K1),
-      * end with a letter pair (the end value is read from the match layer only),
+      * end with a letter pair (the end value was read from the match layer only),
       * start with a letter pair — or, when the segment starts at reference position 0, with a
-        gap in the reference (the free reference prefix sits in the `up` layer of column 0 and
-        feeds only the match layer of column 1)
+        gap in the reference (the free reference prefix sits in the `up` layer of column 0 and,
+        without the `up → left` transition, fed only the match layer of column 1)
     (`Spec.FittedRestricted.IsFittedRestricted`): upper bound and attainment. -/
 theorem fittedAffine_opt_restricted (S : Matrix) (gapOpen : Int) (r q : List Nat) (hr : r ≠ []) (hq : q ≠ []) :
-    ∃ ps, fitAlign S gapOpen r q = .ok ps ∧
+    ∃ ps, fitAlignLegacy S gapOpen r q = .ok ps ∧
       (∀ a, Biogo.Spec.FittedRestricted.IsFittedRestricted a r q (Biogo.Spec.AffPairs.lastEnd ps).1 →
         scoreAff S gapOpen a ≤ total ps) ∧
       (∃ a, Biogo.Spec.FittedRestricted.IsFittedRestricted a r q (Biogo.Spec.AffPairs.lastEnd ps).1 ∧
@@ -155,13 +295,14 @@ theorem fittedAffine_opt_restricted (S : Matrix) (gapOpen : Int) (r q : List Nat
   Biogo.Proofs.FittedClass.fitAlign_restricted_opt S gapOpen r q hr hq
 
 /-- the yardstick of the K3 recogniser is what it claims to be: for every row `e` the
-    match-layer value of the last column of the fitted table is the maximum of the affine
-    score over the restricted class for end `e` (`none` iff the class is empty) -/
+    match-layer value of the last column of the fitted table of the fill before the repair of K1
+    (`fitTable false`) is the maximum of the affine score over the restricted class for end `e`
+    (`none` iff the class is empty) -/
 theorem fittedRestricted_yardstick (S : Matrix) (gapOpen : Int) (r q : List Nat) (hq : q ≠ []) (e : Nat)
     (he : e ≤ r.length) :
     (∀ a, Biogo.Spec.FittedRestricted.IsFittedRestricted a r q e →
-        ∃ x, ((fitTable S gapOpen r q).at e q.length).d = some x ∧ scoreAff S gapOpen a ≤ x) ∧
-    (∀ x, ((fitTable S gapOpen r q).at e q.length).d = some x →
+        ∃ x, ((fitTable false S gapOpen r q).at e q.length).d = some x ∧ scoreAff S gapOpen a ≤ x) ∧
+    (∀ x, ((fitTable false S gapOpen r q).at e q.length).d = some x →
         ∃ a, Biogo.Spec.FittedRestricted.IsFittedRestricted a r q e ∧ scoreAff S gapOpen a = x) :=
   Biogo.Proofs.FittedClass.fitTable_restricted_opt S gapOpen r q hq e he
 
@@ -170,8 +311,8 @@ example : Biogo.Spec.FittedRestricted.IsFittedRestricted [.m 1 1, .m 2 2] [3, 1,
   ⟨⟨1, by decide, by decide, by decide, by decide⟩, (by show noAdj _ = true; decide), by decide,
     Or.inl (by decide)⟩
 
-/-- The classical side condition does not rescue `FittedAffine` (there is no analogue of
-    `nwAffine_opt_of_side_condition`): unit costs satisfy `S x 0 + S 0 y ≤ S x y`, gap-open 0,
+/-- The classical side condition did not rescue `FittedAffine` before the repairs (there is
+    no analogue of `nwAffine_opt_of_side_condition`): unit costs satisfy `S x 0 + S 0 y ≤ S x y`, gap-open 0,
     and the K3 witness (`r = a`, `q = aac`: −3 reported for end 1, `a--` / `aac` scores −1)
     stands.  The alignment that wins ends with a gap in the reference, which the match-layer
     end cannot represent, whatever the matrix. -/
@@ -179,7 +320,7 @@ theorem fittedAffine_side_condition_insufficient :
     ∃ (M : List (List Int)) (gapOpen : Int) (r q : List Nat) (ps : List Pair) (a : Aln),
       gapOpen ≤ 0 ∧ (∀ x, x < 3 → sc M x 0 ≤ 0 ∧ sc M 0 x ≤ 0) ∧
       (∀ x, x < 3 → ∀ y, y < 3 → sc M x 0 + sc M 0 y ≤ sc M x y) ∧
-      fitAlign (sc M) gapOpen r q = .ok ps ∧
+      fitAlignLegacy (sc M) gapOpen r q = .ok ps ∧
       IsFitted a r q (Biogo.Spec.AffPairs.lastEnd ps).1 ∧ NoAdj a ∧ total ps < scoreAff (sc M) gapOpen a :=
   ⟨[[0, -1, -1], [-1, 1, -1], [-1, -1, 1]], 0, [1], [1, 1, 2],
     [⟨0, 0, 0, 2, -2⟩, ⟨0, 1, 2, 3, -1⟩], [.m 1 1, .l 1, .l 2],
@@ -187,7 +328,7 @@ theorem fittedAffine_side_condition_insufficient :
     (by show noAdj _ = true; decide), by decide⟩
 
 /-- non-vacuity: the K1 witness itself -/
-example : nwAlign (sc [[0, 0, 0], [-2, 1, -10], [-2, -10, 1]]) (-2) [1] [2] = .ok [⟨0, 1, 0, 1, -10⟩] := by
+example : nwAlignNoCross (sc [[0, 0, 0], [-2, 1, -10], [-2, -10, 1]]) (-2) [1] [2] = .ok [⟨0, 1, 0, 1, -10⟩] := by
   decide +kernel
 
 /-- the K1 witness: `S[a][c] = −10`, gap scores `−2` (gap in the query) and `0` (gap in the
@@ -195,15 +336,17 @@ example : nwAlign (sc [[0, 0, 0], [-2, 1, -10], [-2, -10, 1]]) (-2) [1] [2] = .o
 def k1M : List (List Int) :=
   [[0, 0, 0, 0, 0], [-2, 1, -10, -10, -10], [-2, -10, 1, -10, -10], [-2, -10, -10, 1, -10], [-2, -10, -10, -10, 1]]
 
-/-- Refutation of the full-strength statement of C08 for `NWAffine` ("the total equals the
-    maximum over all global alignments under the affine gap model"): for `r = a`, `q = c`
-    the aligner reports −10 while the global alignment `a-` / `-c` scores −6. -/
+/-- Refutation of the full-strength statement of C08 for `NWAffine` before the repair of K1
+    ("the total equals the maximum over all global alignments under the affine gap model"):
+    for `r = a`, `q = c` the aligner reported −10 while the global alignment `a-` / `-c`
+    scores −6 — and the repaired aligner (`nwAlign`) reports −6 on the same input. -/
 theorem nwAffine_not_opt :
-    ∃ (M : List (List Int)) (gapOpen : Int) (r q : List Nat) (ps : List Pair) (a : Aln),
+    ∃ (M : List (List Int)) (gapOpen : Int) (r q : List Nat) (ps ps' : List Pair) (a : Aln),
       gapOpen ≤ 0 ∧ (∀ x, x < 5 → sc M x 0 ≤ 0 ∧ sc M 0 x ≤ 0) ∧
-      nwAlign (sc M) gapOpen r q = .ok ps ∧ IsGlobal a r q ∧ total ps < scoreAff (sc M) gapOpen a :=
-  ⟨k1M, -2, [1], [2], [⟨0, 1, 0, 1, -10⟩], [.u 1, .l 2], by decide, by decide, by decide +kernel,
-    ⟨by decide, by decide⟩, by decide⟩
+      nwAlignNoCross (sc M) gapOpen r q = .ok ps ∧ IsGlobal a r q ∧ total ps < scoreAff (sc M) gapOpen a ∧
+      nwAlign (sc M) gapOpen r q = .ok ps' ∧ total ps' = scoreAff (sc M) gapOpen a :=
+  ⟨k1M, -2, [1], [2], [⟨0, 1, 0, 1, -10⟩], [⟨0, 0, 0, 1, -2⟩, ⟨0, 1, 1, 1, -4⟩], [.u 1, .l 2],
+    by decide, by decide, by decide +kernel, ⟨by decide, by decide⟩, by decide, by decide +kernel, by decide⟩
 
 /-- **The classical side condition.**  If a letter pair never scores less than its two
     letters against gaps and opening a gap costs, every global alignment is matched or beaten
@@ -221,11 +364,11 @@ example : ∀ x, x < 3 → ∀ y, y < 3 →
     sc [[0, -1, -1], [-1, 1, -1], [-1, -1, 1]] x 0 + sc [[0, -1, -1], [-1, 1, -1], [-1, -1, 1]] 0 y
       ≤ sc [[0, -1, -1], [-1, 1, -1], [-1, -1, 1]] x y := by decide
 
-/-- **C08 for NWAffine at full strength under the side condition**: the total equals the
-    maximum over *all* global alignments. -/
+/-- **C08 for NWAffine before the repair of K1, at full strength under the side condition**:
+    the total equals the maximum over *all* global alignments. -/
 theorem nwAffine_opt_of_side_condition (S : Matrix) (gapOpen : Int) (ho : gapOpen ≤ 0)
     (H : ∀ x y, S x 0 + S 0 y ≤ S x y) (r q : List Nat) (hr : r ≠ []) (hq : q ≠ []) :
-    ∃ ps, nwAlign S gapOpen r q = .ok ps ∧
+    ∃ ps, nwAlignNoCross S gapOpen r q = .ok ps ∧
       (∀ a, IsGlobal a r q → scoreAff S gapOpen a ≤ total ps) ∧
       (∃ a, IsGlobal a r q ∧ scoreAff S gapOpen a = total ps) := by
   obtain ⟨ps, hps, hub, a, hg, _, he⟩ := nwAffine_opt_partial S gapOpen r q hr hq
@@ -235,11 +378,11 @@ theorem nwAffine_opt_of_side_condition (S : Matrix) (gapOpen : Int) (ho : gapOpe
   have := hub b' hg' hn'
   omega
 
-/-- **C08 for SWAffine at full strength under the side condition**: the total equals the
-    maximum over *all* local alignments (zero if none is positive). -/
+/-- **C08 for SWAffine before the repair of K1, at full strength under the side condition**:
+    the total equals the maximum over *all* local alignments (zero if none is positive). -/
 theorem swAffine_opt_of_side_condition (S : Matrix) (gapOpen : Int) (ho : gapOpen ≤ 0)
     (hg : ∀ x, S x 0 ≤ 0 ∧ S 0 x ≤ 0) (H : ∀ x y, S x 0 + S 0 y ≤ S x y) (r q : List Nat) :
-    ∃ ps, swAlign S gapOpen r q = .ok ps ∧
+    ∃ ps, swAlignNoCross S gapOpen r q = .ok ps ∧
       (∀ a, IsLocal a r q → scoreAff S gapOpen a ≤ total ps) ∧
       (∃ a, IsLocal a r q ∧ scoreAff S gapOpen a = total ps) := by
   obtain ⟨ps, hps, hub, a, hl, _, he⟩ := swAffine_opt_partial S gapOpen ho hg r q
@@ -251,14 +394,14 @@ theorem swAffine_opt_of_side_condition (S : Matrix) (gapOpen : Int) (ho : gapOpe
 
 /-- The side condition as DESIGN.md words it, `S r q ≥ (open + S r 0) + (open + S 0 q)`, does
     not make the restricted optimum the optimum: all letter pairs −10, gap letters −1,
-    gap-open −4, `r = aa`, `q = cc`: the condition holds (−10 ≥ −10), `NWAffine` returns −20,
-    the alignment `aa--` / `--cc` scores −12. -/
+    gap-open −4, `r = aa`, `q = cc`: the condition holds (−10 ≥ −10), `NWAffine` before the repair
+    of K1 returned −20, the alignment `aa--` / `--cc` scores −12. -/
 theorem design_side_condition_insufficient :
     ∃ (M : List (List Int)) (gapOpen : Int) (r q : List Nat) (ps : List Pair) (a : Aln),
       gapOpen ≤ 0 ∧
       (∀ x, x < 5 → ∀ y, y < 5 → 0 < x → 0 < y →
         (gapOpen + sc M x 0) + (gapOpen + sc M 0 y) ≤ sc M x y) ∧
-      nwAlign (sc M) gapOpen r q = .ok ps ∧ IsGlobal a r q ∧ total ps < scoreAff (sc M) gapOpen a :=
+      nwAlignNoCross (sc M) gapOpen r q = .ok ps ∧ IsGlobal a r q ∧ total ps < scoreAff (sc M) gapOpen a :=
   ⟨[[0, -1, -1, -1, -1], [-1, -10, -10, -10, -10], [-1, -10, -10, -10, -10], [-1, -10, -10, -10, -10],
      [-1, -10, -10, -10, -10]], -4, [1, 1], [2, 2],
     [⟨0, 2, 0, 2, -20⟩], [.u 1, .u 1, .l 2, .l 2],
